@@ -33,10 +33,19 @@ func (s *Server) setupDNS64() {
 }
 
 // mapDNS64 maps ip to IPv6 address using configured DNS64 prefix.  ip must be a
-// valid IPv4.  It panics, if there are no configured DNS64 prefixes, because
-// synthesis should not be performed unless DNS64 function enabled.
+// valid IPv4.  It returns nil, if there are no configured DNS64 prefixes,
+// because synthesis should not be performed unless DNS64 function enabled.  It
+// is safe for concurrent use.
 func (s *Server) mapDNS64(ip netip.Addr) (mapped net.IP) {
-	pref := s.dns64Pref.Masked().Addr().As16()
+	s.serverLock.RLock()
+	dns64Pref := s.dns64Pref
+	s.serverLock.RUnlock()
+
+	if dns64Pref == (netip.Prefix{}) {
+		return nil
+	}
+
+	pref := dns64Pref.Masked().Addr().As16()
 	ipData := ip.As4()
 
 	mapped = make(net.IP, net.IPv6len)
